@@ -29,6 +29,12 @@ GW_EXTRA = {
     "touch0_v": {"method": "Variable", "series": [[0, 0.6], [20, 0.0], [40, 0.6]]},   # one day exactly at the surface
     "touch0_c": {"method": "Constant", "series": [[0, 0.5], [15, 0.0], [30, 0.9]]},
     "0.05": {"method": "Constant", "dates": ["{start}"], "values": [0.05]},   # inside the first compartment, above its centre
+    # tables a few millimetres above a compartment centre that lies on a half centimetre (0.225, 0.525, 0.825, 0.275 ...)
+    "0.222": {"method": "Constant", "dates": ["{start}"], "values": [0.222]},
+    "0.522": {"method": "Constant", "dates": ["{start}"], "values": [0.522]},
+    "0.824": {"method": "Constant", "dates": ["{start}"], "values": [0.824]},
+    "0.271": {"method": "Constant", "dates": ["{start}"], "values": [0.271]},
+    "slow_v": {"method": "Variable", "series": [[0, 0.55], [120, 1.40]]},   # crosses several centres slowly
 }
 A.GW.update(GW_EXTRA)
 ALL_GW = ["none", "0.3", "0.8", "1.5", "2.5", "6", "50", "rising_c", "rising_v", "falling_v", "falling_c", "two_v", "four_c", "four_v", "late_v", "late_c", "early_v", "early_c", "all_before_c", "0", "touch0_v", "touch0_c", "0.05"]
@@ -44,6 +50,10 @@ def scenarios(tier, seed=0):
         if tier == "quick" and irr == "net80" and word == "normal":
             continue
         c = A._b(soil=soil, dz=dz, gw=gw, crop=ck, irr=irr, word=word, win="w2", iwc="FC")
+        yield {"kind": "config", "config": c}
+    # half-centimetre centres (compartments of 5 and 15 cm, profiles that are not deepened) with tables millimetres above a centre
+    for soil, dz, gw, word in itertools.product(soils[:2], ["d15x20", "odd"], ["0.222", "0.522", "0.824", "0.271", "slow_v", "rising_v", "0.8"], ["dry", "normal"]):
+        c = A._b(soil=soil, dz=dz, gw=gw, crop="maize.2", irr="none", word=word, win="w2", iwc="FC")
         yield {"kind": "config", "config": c}
     # far table == no table (pairs of executions)
     for soil, dz, ck, irr, word in itertools.product(soils, dzs, crops, irrs, words[:2]):
